@@ -174,6 +174,10 @@ class Interp:
             if len(c) == 1 and self.container is None:
                 # inf_rational(rat): infinitesimal part zero
                 return {self.fields[0]: self.val(c[0], st), self.fields[1]: ZERO}
+            if len(c) == 1 and self.container is not None and len(self.fields) == 2:
+                # lin(k): no variables, the constant k
+                other = [fl for fl in self.fields if fl != self.container][0]
+                return {self.container: ZERO, other: self.val(c[0], st)}
             raise Opaque('construction %s' % show(canon(n))[:80])
         if k == 'CXXOperatorCallExpr' and n.get('op') == '-' and len(c) == 2:
             inner = self.obj_val(c[1], st)
